@@ -82,6 +82,7 @@ class DiskSeam:
         self.counts: dict = {}
         self.events: list = []
         self.fired = None
+        self.fired_at = None
         self.lock = threading.Lock()
         self.armed = False
 
@@ -109,6 +110,7 @@ class DiskSeam:
             f = self.fault
             if f and self.fired is None and f["kind"] == kind and f["k"] == n:
                 self.fired = (kind, n, rel)
+                self.fired_at = len(self.events)
                 code = errno.EIO if kind == "read" or (kind == "open" and f.get("mode") == "r") else errno.ENOSPC
                 raise InjectedOSError(code, f"injected {errno.errorcode[code]} on {kind} #{n}", rel)
 
